@@ -20,7 +20,9 @@ TECHNIQUE = ('explicit-state exploration of the real LatexTokenReader: every (su
 
 ALPHA = words.SIGMA_R + ['\\begin{a}', '\\end{a}', '\r']
 
-BOUNDS = {'quick': dict(N=3, R=2, X=2), 'thorough': dict(N=4, R=4, X=3)}
+BOUNDS = {'quick': dict(N=3, R=2, X=2, LR=4), 'thorough': dict(N=4, R=4, X=3, LR=5)}
+# lexemes for longer complete runs (under the configurations with every switch on, and the extras)
+LEX = ['%c\n', '\n', ' ', '\\a', '\\a ', 'b', '{', '}', '$', '\\\\', '~']
 
 MATH = [
     ('text', dict(in_math_mode=False)),
@@ -106,6 +108,15 @@ def cross_state(s, ps, tol, others, viol):
         if (k2, c2, p2) != (k0, c0, tr0.cur_pos()):
             viol('peek-under-other-state-changes-read', [k2, c2, p2], [k0, c0, tr0.cur_pos()])
             return
+        # read under one state, go back to the token, read under the other state
+        tr = LatexTokenReader(s, tolerant_parsing=tol)
+        k1, c1, t1 = _read(tr.next_token, ps)
+        if k1 == 'tok':
+            tr.move_to_token(t1)
+            k3, c3, _ = _read(tr.next_token, ps2)
+            if (k3, c3, tr.cur_pos()) != (k0, c0, tr0.cur_pos()):
+                viol('read-after-going-back-ignores-the-state', [k3, c3, tr.cur_pos()], [k0, c0, tr0.cur_pos()])
+                return
 
 
 def canon_tok(t):
@@ -188,6 +199,37 @@ def transition(s, p0, ps, tol, viol):
     return ('tok', c1, p1)
 
 
+def short_lived(s, ps, tol, viol):
+    """Short-lived states (built inline, freed at once) that differ in the macro-name alphabet: nothing may be
+    remembered about a state that no longer exists (its address is reused by the next one)."""
+    from pylatexenc.latexnodes import LatexTokenReader
+    for (a1, a2) in (('a*', 'a'), ('a', 'a*')):
+        keep = ps.sub_context(macro_alpha_chars=a2)
+        tr0 = LatexTokenReader(s, tolerant_parsing=tol)
+        k0, c0, _ = _read(tr0.next_token, keep)
+        p0 = tr0.cur_pos()
+        tr = LatexTokenReader(s, tolerant_parsing=tol)
+        t1 = ps.sub_context(macro_alpha_chars=a1)
+        i1 = id(t1)
+        _read(tr.peek_token, t1)
+        del t1
+        # build states until one lands at the address of the one just freed (kept ones stay alive meanwhile)
+        kept = []
+        t2 = None
+        for _ in range(64):
+            t2 = ps.sub_context(macro_alpha_chars=a2)
+            if id(t2) == i1:
+                break
+            kept.append(t2)
+            t2 = None
+        if t2 is None:
+            return          # no address reuse provoked: nothing to observe
+        k2, c2, _ = _read(tr.next_token, t2)
+        if (k2, c2, tr.cur_pos()) != (k0, c0, p0):
+            viol('peek-under-short-lived-state-changes-read', [k2, c2, tr.cur_pos()], [k0, c0, p0])
+            return
+
+
 def full_run(s, ps, tol, viol, cache_first):
     """Complete run from position 0: <= len(s) reads, concatenation reproduces s, and the
     token read at (s,p) equals the token of state (s[p:],0) shifted by p."""
@@ -196,10 +238,12 @@ def full_run(s, ps, tol, viol, cache_first):
     pieces = []
     reads = 0
     first_tok = None
+    alltoks = []
     while True:
         p0 = tr.cur_pos()
         k, c, t = _read(tr.next_token, ps)
         if k == 'tok':
+            alltoks.append((c, t))
             if first_tok is None:
                 first_tok = (c, t)
             reads += 1
@@ -220,6 +264,13 @@ def full_run(s, ps, tol, viol, cache_first):
             kp, cp, _ = _read(tr.peek_token, ps)
             if (kp, cp) != (k, c):
                 viol('eos-not-repeatable', [kp, cp], [k, c])
+            # going back to any token of the run, last to first, and reading again gives an equal token
+            for (ci, ti) in reversed(alltoks):
+                tr.move_to_token(ti)
+                kk, cc, _ = _read(tr.next_token, ps)
+                if (kk, cc) != ('tok', ci):
+                    viol('reread-differs', ['after a complete run', kk, cc], ['tok', ci])
+                    break
             if first_tok is not None:
                 for how in ('token', 'pos'):
                     if how == 'token':
@@ -246,9 +297,11 @@ def full_run(s, ps, tol, viol, cache_first):
             return None
 
 
-def check_word(s, acc, do_run, only_cfg=None, do_cross=True):
+def check_word(s, acc, do_run, only_cfg=None, do_cross=True, lex=False):
     for (ckey, ps, tol) in configs():
         if only_cfg is not None and list(ckey) != list(only_cfg):
+            continue
+        if lex and ckey[1] not in ('1111111', '-'):
             continue
 
         def viol(kind, observed, expected, _ckey=ckey):
@@ -281,6 +334,12 @@ def check_word(s, acc, do_run, only_cfg=None, do_cross=True):
                 viol('hang', None, None)
             elif st == 'exc':
                 viol('exception', type(res).__name__ + '@' + exc_frame(res), None)
+        if ckey[1] == '1111111' and '\\' in s:
+            st, res = run_guarded(short_lived, s, ps, tol, viol)
+            if st == 'timeout':
+                viol('hang', None, None)
+            elif st == 'exc':
+                viol('exception', type(res).__name__ + '@' + exc_frame(res), None)
         if do_run:
             def first(suffix, _ps=ps, _tol=tol):
                 from pylatexenc.latexnodes import LatexTokenReader
@@ -299,6 +358,7 @@ def check_word(s, acc, do_run, only_cfg=None, do_cross=True):
 def plan(tier):
     b = BOUNDS[tier]
     shards = words.prefix_shards(ALPHA, b['N'], 2)
+    shards += [('lex', i, j) for i in range(len(LEX)) for j in range(len(LEX))]
     return dict(
         shards=shards,
         bounds=dict(b, alphabet=ALPHA, configurations=len(configs())),
@@ -306,7 +366,7 @@ def plan(tier):
               'alphabet x every configuration (6 math settings x 2^7 enable_* switches x 2 group-delimiter '
               'lists x {no context, default context} x {strict, tolerant} + 28 extras with forbidden/escape/'
               'comment characters); one transition (peek, read, rewind, re-read) per state, plus peek under the state and read under a state that differs only in the math setting (all five other settings, words of length <= X); complete runs for '
-              'words of length <= R, followed by a rewind from the end of the stream and a second complete run.  non-trivial = states whose transition yields a token (not end of '
+              'words of length <= R, followed by a rewind from the end of the stream and a second complete run and a re-read of every token last to first; the same complete runs for all words of length <= LR over 11 lexemes (comment, newline, blank, macro with and without trailing blank, ...) under the 72 configurations with every switch on or an extra; peek/read under short-lived states that differ in the macro-name alphabet; read, go back, read under another state.  non-trivial = states whose transition yields a token (not end of '
               'stream / strict error); states are distinct by construction.'),
         assumptions=['the state graph over suffixes is closed: checked by the suffix-canonicalisation comparison on every step of every complete run'],
     )
@@ -314,6 +374,16 @@ def plan(tier):
 
 def run_shard(shard, tier, acc):
     b = BOUNDS[tier]
+    if shard[0] == 'lex':
+        pre = (shard[1], shard[2])
+        if pre == (0, 0):
+            for w in [()] + [(i,) for i in range(len(LEX))]:
+                check_word(''.join(LEX[i] for i in w), acc, do_run=True, do_cross=False, lex=True)
+        for n in range(0, b['LR'] - 2 + 1):
+            for suf in itertools.product(range(len(LEX)), repeat=n):
+                s = ''.join(LEX[i] for i in pre + suf)
+                check_word(s, acc, do_run=True, do_cross=False, lex=True)
+        return
     for w in words.iter_shard(ALPHA, b['N'], shard):
         s = words.render(ALPHA, w)
         check_word(s, acc, do_run=(len(w) <= b['R']), do_cross=(len(w) <= b['X']))
